@@ -352,7 +352,7 @@ def run(prop, tier, seed):
         ps = producer_scenarios(rng, 150 if q else 2500)
         _, bad3, mism3 = l2_family(run_, exe, ps, judge_producer, cls=lambda s, r: "producer " + s["producer"])
         import wide
-        wb, wm = wide.wide_family(run_, exe, rng, 150 if q else 3000, prop=prop)
+        wb, wm = wide.wide_family(run_, exe, rng, 300 if q else 4000, prop=prop)
         mism3 = mism3 + wm
     except CheckError as e:
         run_.violation("no-input", "build failed: %s" % e, dict(broken="build", detail=str(e)))
